@@ -13,7 +13,7 @@ def build():
     ensures r == is_unit_char(c), //@C19.unit_chars
 """)})
     u.verify(D, "get_multiplicator", "duration", props=["C19"], fns={"get_multiplicator": FnSpec(ret="r", sig="""
-    ensures r matches Ok(t) ==> input@.len() >= 1 && is_unit_char(input@[0]) && t.1 == unit_seconds(input@[0]) && t.0@ == input@.skip(1), //@C19.unit_multiplier,C06.unit_multiplier,C14.unit_multiplier
+    ensures r matches Ok(t) ==> input@.len() >= 1 && is_unit_char(input@[0]) && t.1 == unit_seconds(input@[0]) && t.0@ == input@.skip(1), //@C19.unit_multiplier,C06.unit_multiplier,C14.unit_multiplier,C09.unit_multiplier
 """, rewrites=[("T-NOM", r"take_while_m_n\(1, 1, is_duration_chr\)\(input\)", "crate::nom::take_while_m_n(1, 1, is_duration_chr, input)", None),
                ("T-NOM", r"\b(?P<c>take_while1|take_while)\((?P<p>\w+)\)\(input\)", r"crate::nom::\g<c>(\g<p>, input)", None),
                ("T-NOM", r"nb\.chars\(\)\.next\(\)", "crate::nom::first_char(nb)")])})
